@@ -122,6 +122,12 @@ pub(crate) fn validate(input: &DataType) -> Result<()> {
             DataTypeMember::Variant(v) => {
                 bark_at_member_attr(&member_attrs.parent_attrs, "parent", |_| v.ident.span(), &mut errors);
 
+                for ghost_data in member_attrs.ghosts_attrs.iter().flat_map(|x| &x.attr.ghost_data) {
+                    if let GhostIdent::Destruction(_) = &ghost_data.ghost_ident {
+                        errors.insert("Variant-level #[ghosts(...)] should name a member of the other type's variant, not a pattern.".into(), v.ident.span());
+                    }
+                }
+
                 validate_dedicated_member_attrs(&member_attrs.lit_attrs, |x| x.container_ty.as_ref(), Some("literal"), member_span, &type_paths, &mut errors);
                 validate_dedicated_member_attrs(&member_attrs.pat_attrs, |x| x.container_ty.as_ref(), Some("pattern"), member_span, &type_paths, &mut errors);
                 validate_dedicated_member_attrs(&member_attrs.type_hint_attrs, |x| x.container_ty.as_ref(), Some("type_hint"), member_span, &type_paths, &mut errors);
@@ -139,6 +145,11 @@ pub(crate) fn validate(input: &DataType) -> Result<()> {
 
     match input {
         DataType::Struct(s) => {
+            for ghost_data in attrs.ghosts_attrs.iter().flat_map(|x| &x.attr.ghost_data) {
+                if let GhostIdent::Destruction(_) = &ghost_data.ghost_ident {
+                    errors.insert("Struct-level #[ghosts(...)] should name a member of the other type, not a pattern.".into(), Span::call_site());
+                }
+            }
             validate_fields(s, attrs, &data_type_attrs_by_kind, &type_paths, &mut errors);
         },
         DataType::Enum(e) => {
